@@ -171,6 +171,63 @@ impl Prop for C07 {
             let order: Vec<usize> = events.iter().map(|e| e.1).collect();
             return Scn { kind, cap: m - 1, conns, order, via_loop: false, boundaries: vec![], wall_jumps: vec![] };
         }
+        // staggered lifetimes under exact capacity, TLS analyzer (one run in 100): A completes its hello; B leaves an
+        // unfinished one; nothing happens for 21..55 s; C opens a TLS flow; then A sends a second ClientHello on a
+        // segment of its own. The table holds two entries, and at no time are more than two flows alive.
+        if kind == Kind::Tls && r.chance(1, 100) {
+            let s_ns = 1_000_000_000u64;
+            let gap = *r.pick(&[21u64, 31, 45, 55]) * s_ns;
+            let h = crate::gen::tcp::Host { profile: 0, ts_hz: 1000, ts_base: 5, ttl: 64 };
+            let server = crate::pkt::Endpoint::v4(10, 0, 0, 10, 443);
+            let hello = |r: &mut Rng| {
+                let mut spec = crate::gen::tls::random_spec(r, 500);
+                spec.target_len = 0;
+                spec.coalesced_before = 0;
+                spec.exact_body = None;
+                crate::gen::tls::client_hello(r, &spec)
+            };
+            let mut conns: Vec<Conn> = vec![];
+            let mut events: Vec<(u64, usize)> = vec![];
+            for i in 0..3usize {
+                let client = crate::pkt::Endpoint::v4(10, 0, 0, 1 + i as u8, 41000 + i as u16);
+                let first = hello(r);
+                let mut plan: Vec<(u64, crate::pkt::Seg)> = vec![];
+                let t0 = match i {
+                    0 => 0,
+                    1 => s_ns,
+                    _ => s_ns + gap,
+                };
+                plan.push((t0, crate::gen::tcp::syn(&h, client, server, 1000, t0)));
+                plan.push((t0 + 1_000_000, crate::gen::tcp::syn_ack(&h, client, server, 5000, 1000, t0, 1)));
+                match i {
+                    1 => {
+                        // B: the first part of its hello only
+                        let cut = (first.len() / 2).max(6);
+                        plan.push((t0 + 2_000_000, crate::gen::tcp::data(&h, client, server, 1001, 5001, first[..cut].to_vec(), t0, 1, crate::pkt::ACK | crate::pkt::PSH)));
+                    }
+                    _ => {
+                        plan.push((t0 + 2_000_000, crate::gen::tcp::data(&h, client, server, 1001, 5001, first.clone(), t0, 1, crate::pkt::ACK | crate::pkt::PSH)));
+                    }
+                }
+                if i == 0 {
+                    // A's second ClientHello (HelloRetryRequest), after C has opened its flow
+                    let second = hello(r);
+                    let t2 = s_ns + gap + 10_000_000 + r.below(3) * s_ns;
+                    plan.push((t2, crate::gen::tcp::data(&h, client, server, 1001u32.wrapping_add(first.len() as u32), 5001, second, t2, 1, crate::pkt::ACK | crate::pkt::PSH)));
+                }
+                let mut steps = vec![];
+                let mut prev = 0u64;
+                for (t, seg) in plan {
+                    steps.push(conn::Step { dt_ns: t - prev, seg });
+                    prev = t;
+                    events.push((t, i));
+                }
+                conns.push(Conn { kind: ConnKind::Tls, client, server, framing: Framing::Ethernet, steps, raw_override: vec![] });
+            }
+            events.sort();
+            let order: Vec<usize> = events.iter().map(|e| e.1).collect();
+            return Scn { kind, cap: 2, conns, order, via_loop: false, boundaries: vec![], wall_jumps: vec![] };
+        }
         let n = r.urange(2, 8);
         let v6 = r.chance(1, 5);
         let eps = conn::endpoints(r, n, v6);
